@@ -123,3 +123,31 @@ package posix
 //@   ensures {C17} [uid-from-account] ret0 == ite(p.chownuid && acct.UserID != p.euid, acct.UserID, p.euid)
 //@   ensures {C17} [gid-from-account] ret1 == ite(p.chowngid && acct.GroupID != p.egid, acct.GroupID, p.egid)
 //@   ensures {C17} [chown-iff-any-id-differs] ret2 == ((p.chownuid && acct.UserID != p.euid) || (p.chowngid && acct.GroupID != p.egid))
+
+// ---- C07: the posix listings hand the request's parameters to Walk unchanged and return Walk's page unchanged ----
+// V2 resumes at the later of start-after and continuation-token (string order), so a client that repeats start-after
+// together with the token still makes progress.
+// fileToObj only builds the object constructor (a function literal)
+//@ func (*Posix) fileToObj
+//@   frame none
+//@ func (*Posix) ListObjects
+//@   requires {C07} input.MaxKeys != nil && 0 <= *input.MaxKeys && *input.MaxKeys <= 1000
+//@   let walk = result("backend.Walk", 0)
+//@   at-call backend.Walk {C07} [walk-gets-the-request-parameters] requires $2 == ite(input.Prefix != nil, *input.Prefix, "") \
+//@        && $3 == ite(input.Delimiter != nil, *input.Delimiter, "") && $4 == ite(input.Marker != nil, *input.Marker, "") && $5 == *input.MaxKeys
+//@   ensures {C07} [entries-are-the-walk-result] err == nil ==> called("backend.Walk") && ret0.Contents == walk.Objects && ret0.CommonPrefixes == walk.CommonPrefixes
+//@   ensures {C07} [truncation-flag-present] err == nil ==> ret0.IsTruncated != nil
+//@   ensures {C07} [next-position-is-the-walk-marker] err == nil ==> (walk.NextMarker == "" ==> ret0.NextMarker == nil) && (walk.NextMarker != "" ==> ret0.NextMarker != nil && *ret0.NextMarker == walk.NextMarker)
+//@   ensures {C07} [at-most-max-keys-objects] err == nil ==> len(ret0.Contents) <= old(*input.MaxKeys)
+//@ func (*Posix) ListObjectsV2
+//@   requires {C07} input.MaxKeys != nil && 0 <= *input.MaxKeys && *input.MaxKeys <= 1000
+//@   requires {C07} input.ContinuationToken != nil && input.StartAfter != nil
+//@   let walk = result("backend.Walk", 0)
+//@   let later = ite(*input.StartAfter > *input.ContinuationToken, *input.StartAfter, *input.ContinuationToken)
+//@   at-call backend.Walk {C07} [walk-gets-the-request-parameters] requires $2 == ite(input.Prefix != nil, *input.Prefix, "") \
+//@        && $3 == ite(input.Delimiter != nil, *input.Delimiter, "") && $5 == *input.MaxKeys
+//@   at-call backend.Walk {C07} [walk-resumes-at-the-later-of-start-after-and-token] requires $4 == later
+//@   ensures {C07} [entries-are-the-walk-result] err == nil ==> called("backend.Walk") && ret0.Contents == walk.Objects && ret0.CommonPrefixes == walk.CommonPrefixes
+//@   ensures {C07} [truncation-flag-present] err == nil ==> ret0.IsTruncated != nil
+//@   ensures {C07} [next-position-is-the-walk-marker] err == nil ==> (walk.NextMarker == "" ==> ret0.NextContinuationToken == nil) && (walk.NextMarker != "" ==> ret0.NextContinuationToken != nil && *ret0.NextContinuationToken == walk.NextMarker)
+//@   ensures {C07} [at-most-max-keys-objects] err == nil ==> len(ret0.Contents) <= old(*input.MaxKeys)
